@@ -10,7 +10,7 @@ use std::io::{BufRead, BufReader, Write};
 use std::sync::atomic::{AtomicU64, Ordering};
 use std::sync::Arc;
 
-/// ux_<group> <scenarios.ndjson> <events.ndjson> [--from K] [--hang-secs T]
+/// ux_<group> <scenarios.ndjson> <events.ndjson> [--from K] [--hang-secs T] [--skip-ops a,b]
 /// Executes scenario lines K.. and appends one event line per scenario (flushed
 /// per event, so the number of lines in the events file is the index of the
 /// scenario in flight if the process dies).  Exit 0 = all lines done, exit 3 =
@@ -21,6 +21,7 @@ pub fn main_with(run: fn(&common::Obj) -> serde_json::Value) {
     let out = &args[2];
     let mut from = 0usize;
     let mut hang_secs = 20u64;
+    let mut skip_ops: Vec<String> = vec![];
     let mut i = 3;
     while i < args.len() {
         match args[i].as_str() {
@@ -30,6 +31,12 @@ pub fn main_with(run: fn(&common::Obj) -> serde_json::Value) {
             }
             "--hang-secs" => {
                 hang_secs = args[i + 1].parse().unwrap();
+                i += 2;
+            }
+            "--skip-ops" => {
+                // operations that already hung / crashed several times in this run: their remaining scenarios are
+                // answered with st = "skipped" (the supervisor reports them) instead of costing one watchdog period each
+                skip_ops = args[i + 1].split(',').filter(|s| !s.is_empty()).map(|s| s.to_string()).collect();
                 i += 2;
             }
             x => panic!("unknown argument {x}"),
@@ -69,6 +76,18 @@ pub fn main_with(run: fn(&common::Obj) -> serde_json::Value) {
             continue;
         }
         let v: serde_json::Value = serde_json::from_str(&line).expect("scenario json");
+        if let Some(op) = v.get("op").and_then(|o| o.as_str()) {
+            if skip_ops.iter().any(|s| s == op) {
+                let mut o = v.as_object().unwrap().clone();
+                o.insert("st".to_string(), serde_json::Value::from("skipped"));
+                o.insert("pan".to_string(), serde_json::Value::Array(vec![]));
+                let mut s = serde_json::to_string(&serde_json::Value::Object(o)).unwrap();
+                s.push('\n');
+                wr.write_all(s.as_bytes()).unwrap();
+                progress.fetch_add(1, Ordering::Relaxed);
+                continue;
+            }
+        }
         let ev = match std::panic::catch_unwind(|| run(v.as_object().unwrap())) {
             Ok(ev) => ev,
             Err(e) => {
